@@ -526,6 +526,21 @@ def run_ghost(st, stmts):
             if src not in _GHOST_CACHE:
                 _GHOST_CACHE[src] = ast.parse(src).body
             for g in _GHOST_CACHE[src]:
+                if isinstance(g, ast.Expr) and isinstance(g.value, ast.Call) and isinstance(g.value.func, ast.Name) \
+                        and g.value.func.id == 'abstract':
+                    _ghost_abstract(st, g.value)
+                    continue
+                if isinstance(g, ast.Expr) and isinstance(g.value, ast.Call) and isinstance(g.value.func, ast.Name) \
+                        and g.value.func.id == 'lemma':
+                    # lemma("fact"): an intermediate obligation in the current state, assumed afterwards (a cut)
+                    try:
+                        gl = truthy_spec(st, g.value.args[0].value)
+                    except Undecided as u:
+                        st.ex.notes.append('ghost lemma skipped: %s' % u)     # a proof aid only, see abstract()
+                        continue
+                    st.prove('ghost-lemma@%s' % st.lineno, gl, 'check', st.lineno)
+                    st.assume(gl)
+                    continue
                 for t in ast.walk(g):
                     if isinstance(t, ast.Name) and isinstance(t.ctx, ast.Store) and not t.id.startswith('_g'):
                         raise Undecided('ghost statement assigns non-ghost local %s' % t.id)
@@ -533,6 +548,31 @@ def run_ghost(st, stmts):
                 m(st, g)
     finally:
         st.frames = saved
+
+
+def _ghost_abstract(st, call):
+    """abstract(x, "fact over x"): a cut on an immutable local.  The fact is an obligation in the current state;
+    afterwards x stands for an arbitrary value of its type of which only the fact is known (a weakening of the
+    state: sound), so that later obligations do not drag the defining term of x along."""
+    name = call.args[0].id
+    fact = call.args[1].value
+    v = st.locals[name]
+    if v.t.kind not in ('int', 'bool', 'real', 'str', 'bytes'):
+        raise Undecided('abstract(%s): only locals of immutable scalar type' % name)
+    try:
+        g = truthy_spec(st, fact)
+    except Undecided as u:
+        # the hint does not fit this state (e.g. the code changed and the fact no longer type-checks): a ghost
+        # cut is only a proof aid, so it is skipped -- nothing is forgotten and nothing is assumed
+        st.ex.notes.append('ghost abstract(%s) skipped: %s' % (name, u))
+        return
+    st.prove('ghost-abstract[%s]' % name, g, 'check', st.lineno)
+    st.locals[name] = st.fresh_val(v.t, name + '_abs')
+    st.assume(truthy_spec(st, fact))
+
+
+def truthy_spec(st, src):
+    return spec_bool(st, src, st.locals)
 
 
 def exec_stmt(st, s):
@@ -551,6 +591,9 @@ def exec_stmt(st, s):
                 key = ''
             s._src = key
         if key in ga:
+            if not hasattr(st.ex, 'ghost_hit'):
+                st.ex.ghost_hit = set()
+            st.ex.ghost_hit.add(key)
             run_ghost(st, ga[key])
 
 
